@@ -186,6 +186,10 @@ def run_roundtrip(c):
             cls.append("soft-centre")
         if len(m["rects"]) >= 2:
             cls.append("multi-rect")
+        if m["kind"] == "terminal" and m["rects"]:
+            cls.append("terminal-with-rectangles")
+    if model.get("nets_first"):
+        cls.append("nets-listed-before-modules")
     for e in model["nets"]:
         cls.append("net-weighted" if e["w"] is not None else "net-unweighted")
         if e["w"] in (1, 1.0) and e["w"] is not None:
@@ -197,7 +201,7 @@ def run_roundtrip(c):
 
 @st.composite
 def case_s(draw):
-    c = dict(model=draw(G.netlist_model()), form=draw(st.sampled_from(["tree", "tree", "text"])))
+    c = dict(model=draw(G.netlist_model(pads=True)), form=draw(st.sampled_from(["tree", "tree", "text"])))
     if draw(st.booleans()):
         c["edits"] = [[draw(st.sampled_from(["center", "center-inplace", "square", "assign", "recenter"])), draw(st.integers(0, 5)),
                        draw(st.integers(-8, 8)) / 4, draw(st.integers(-8, 8)) / 4] for _ in range(draw(st.integers(1, 3)))]
@@ -209,4 +213,5 @@ def subchecks():
                 required=("kind-soft", "kind-hard", "kind-fixed", "kind-terminal", "region-areas", "flip", "aspect-ratio",
                           "rect-in-region", "terminal-centre", "soft-centre", "multi-rect", "net-weighted", "net-unweighted",
                           "net-weight-1", "hyperedge", "text", "tree", "edited-then-written-again", "edit-centre", "edit-square",
-                          "edit-assign", "edit-recenter-hard", "failed-writes-of-other-objects-in-between"))]
+                          "edit-assign", "edit-recenter-hard", "failed-writes-of-other-objects-in-between", "terminal-with-rectangles",
+                          "nets-listed-before-modules"))]
